@@ -62,11 +62,13 @@ class Watch:
 
     def __enter__(self) -> 'Watch':
         self.old = signal.signal(signal.SIGALRM, _alarm)
-        signal.setitimer(signal.ITIMER_REAL, self.seconds)
+        # repeating: an exception raised inside a destructor or a weakref callback is swallowed by the
+        # interpreter, so one shot is not enough to get out of a spinning loop
+        signal.setitimer(signal.ITIMER_REAL, self.seconds, 0.2)
         return self
 
     def rearm(self) -> None:
-        signal.setitimer(signal.ITIMER_REAL, self.seconds)
+        signal.setitimer(signal.ITIMER_REAL, self.seconds, 0.2)
 
     def __exit__(self, *a: Any) -> None:
         signal.setitimer(signal.ITIMER_REAL, 0)
@@ -890,6 +892,7 @@ async def window_case(role: str, window: int, pktsize: int, nbytes: int = 300) -
                 t.cancel()
         o['kind'] = 'channel-open-params'
         o['window'], o['pktsize'] = window, pktsize
+        o['target_id'] = id(case.target)
         return o
     finally:
         teardown(case)
@@ -969,7 +972,6 @@ async def stream_case(phase: str, role: str, seed: str, explicit: Optional[Tuple
             cuts = sorted(rng.randrange(len(data) + 1) for _ in range(ncuts))
         chunks = [data[a:b] for a, b in zip([0] + cuts, cuts + [len(data)])]
         chunks = [c for c in chunks if c]
-        worst: Optional[Dict[str, Any]] = None
         agg: Dict[str, Any] = {'label': f'stream {kind} {len(data)} bytes in {len(chunks)} chunks', 'phase': phase,
                                'role': role, 'kind': 'stream', 'input_len': len(data), 'rounds': 0, 'out_bytes': 0,
                                'loop_errors': [], 'spin': False, 'closed': False, 'reports': [], 'reason': ''}
@@ -994,7 +996,6 @@ async def stream_case(phase: str, role: str, seed: str, explicit: Optional[Tuple
                 agg['report_where'] = o.get('report_where', [])
                 agg['reason'] = o.get('reason', '')
                 if o.get('spin') or o.get('closed'):
-                    worst = o
                     break
         agg['data'] = data[:4096].hex()
         agg['data_len'] = len(data)
